@@ -1,6 +1,6 @@
 /* ThreadSanitizer stress programs for C14: the concurrent uses the API allows.
  *   tsan_stress <scenario> <seed> <dir>
- * scenarios: writers (several caller threads, each with a pooled writer, ONE shared pool),
+ * scenarios: readers_all (a shared reader per compression algorithm, six threads each), writers (several caller threads, each with a pooled writer, ONE shared pool),
  *            sorters (same with pooled sorters), readers (many threads on one reader through
  *            their own iterators), firstcrc (the process's first checksums computed by several
  *            pool workers at once), mixed.
@@ -161,6 +161,17 @@ int main(int argc, char **argv)
 		shared_reader = mtbl_reader_init(path, ro); mtbl_reader_options_destroy(&ro);
 		run_threads(reader_thread, 6);
 		mtbl_reader_destroy(&shared_reader); unlink(path);
+	} else if (!strcmp(sc, "readers_all")) {
+		/* one shared reader per compression algorithm (every decompressor is entered by six threads at once) */
+		static const int comps[] = { MTBL_COMPRESSION_NONE, MTBL_COMPRESSION_SNAPPY, MTBL_COMPRESSION_ZLIB, MTBL_COMPRESSION_LZ4,
+		                             MTBL_COMPRESSION_LZ4HC, MTBL_COMPRESSION_ZSTD };
+		for (unsigned ci = 0; ci < sizeof comps / sizeof comps[0]; ci++) {
+			char path[512]; snprintf(path, sizeof path, "%s/tra%u.mtbl", dir, ci); make_table(path, comps[(ci + seed) % 6]);
+			struct mtbl_reader_options *ro = mtbl_reader_options_init(); mtbl_reader_options_set_verify_checksums(ro, (seed + ci) % 2 == 0);
+			shared_reader = mtbl_reader_init(path, ro); mtbl_reader_options_destroy(&ro);
+			run_threads(reader_thread, 6);
+			mtbl_reader_destroy(&shared_reader); unlink(path);
+		}
 	} else if (!strcmp(sc, "firstcrc")) {
 		/* no checksum has been computed in this process yet: several workers compute the first ones together */
 		pool = mtbl_threadpool_init(4);
